@@ -130,6 +130,19 @@ CHECKS = {
             "the cells' nets are evaluated to confirm that inversion is applied on the fabric side.",
             "Model in vchecks/c18.py. The small netlist evaluator supports top/^/~/&/|/iob cells only (else exit 2).",
             "DESIGN.md §4 C18"),
+    "C20": ("exploration",
+            "Hypothesis-generated format specifications, shapes, values and Print/Assert placements inside generated "
+            "control-flow programs; oracle = CPython's str.format on the exact integer and the reference statement "
+            "interpreter for activity per clock edge",
+            "Format specs are drawn from the accepted grammar (all option combinations, fills incl. non-ASCII, every type) "
+            "and applied to signed/unsigned values of width 0..24, code points and UTF-8 strings; the text printed by the "
+            "simulation and carried by AssertionError must equal Python's own formatting; specs from the rejected grammar "
+            "must raise at construction. Print/Assert/Assume statements inserted into generated If/Switch/FSM programs are "
+            "compared edge by edge with the reference interpreter: output exactly at active edges where the statement is "
+            "active, nothing at input/reset/inactive-edge events, stop exactly at the first failing assertion.",
+            "Oracle: CPython formatting + vlib/refsem.py Interp hooks. Embedded NUL bytes in 's' values and output at the "
+            "very edge where an assertion fires are not judged.",
+            "DESIGN.md §4 C20"),
 }
 
 TITLES = {}
